@@ -69,7 +69,7 @@ Section Total.
   Lemma mseq_fine m fuel a e : (length (all_calls m) < fuel)%nat -> fine (mseq g m fuel a e) = true.
   Proof.
     intros Hf. unfold mseq.
-    apply (walk_fine pair_eqb pair_eqb_spec (mseq_expand m) (mseq_onerr g) (keyed (fun a c => (a_name a, c_ep c)) m)).
+    apply (walk_fine pair_eqb pair_eqb_spec (mseq_expand m) (mseq_onerr g) true (keyed (fun a c => (a_name a, c_ep c)) m)).
     - intros n o es pre k n' He Hin. unfold mseq_expand in He.
       destruct (find_app m (fst n)) as [ap|] eqn:Ea; [|inversion He; subst; destruct Hin].
       destruct (find_ep ap (snd n)) as [ep|] eqn:Ee; [|inversion He; subst; destruct Hin].
@@ -98,10 +98,10 @@ Section Total.
   Qed.
 
   Lemma mint_walk_fine m fuel n : (length (all_calls m) < fuel)%nat ->
-    fine (fst (walk pair_eqb (mint_expand g m) Err true fuel n [])) = true.
+    fine (fst (walk pair_eqb (mint_expand g m) Err true true fuel n [])) = true.
   Proof.
     intros Hf. destruct G_all as (_ & _ & _ & _ & _ & _ & _ & _ & Hmi & _).
-    apply (walk_fine pair_eqb pair_eqb_spec (mint_expand g m) Err (keyed (fun a c => (a_name a, c_app c)) m)).
+    apply (walk_fine pair_eqb pair_eqb_spec (mint_expand g m) Err true (keyed (fun a c => (a_name a, c_app c)) m)).
     - intros n0 o es pre k n' He Hin. unfold mint_expand in He. destruct n0 as [x|].
       + destruct (find_app m x) as [ap|] eqn:Ea.
         * inversion He; subst. apply find_app_some in Ea. destruct Ea as [Ha _]. eapply mint_edges_keys; eassumption.
@@ -125,17 +125,17 @@ Section Total.
   Proof.
     destruct G_all as (Hi & _). unfold ints_edge. rewrite Hi.
     destruct (memN (c_app c) excl); [intros [= <- <-]; split; [reflexivity|discriminate]|].
-    destruct (find_app m (c_app c)) as [ta|]; [|intros [= <- <-]; split; [reflexivity|discriminate]].
-    destruct (find_ep ta (c_ep c)); [|intros [= <- <-]; split; [reflexivity|discriminate]].
-    destruct (a_human ta); [intros [= <- <-]; split; [reflexivity|discriminate]|].
-    destruct (memN (c_app c) pass); intros [= <- <-]; (split; [reflexivity|]); [intros k n' [= <- _]; reflexivity|discriminate].
+    destruct (find_app m (c_app c)) as [ta|].
+    - destruct (a_human ta); [intros [= <- <-]; split; [reflexivity|discriminate]|].
+      destruct (memN (c_app c) pass); intros [= <- <-]; (split; [reflexivity|]); [intros k n' [= <- _]; reflexivity|discriminate].
+    - destruct (memN (c_app c) pass); intros [= <- <-]; (split; [reflexivity|]); [intros k n' [= <- _]; reflexivity|discriminate].
   Qed.
 
   Lemma ints_view_fine m fuel cx view : (length (all_calls m) < fuel)%nat -> fine (ints_view g m fuel cx view) = true.
   Proof.
     intros Hf. destruct G_all as (_ & Hw & _). unfold ints_view. rewrite Hw.
     set (excl := cx ++ e_excl view). set (pass := e_pass view).
-    apply (walk_fine pair_eqb pair_eqb_spec (ints_expand g m excl pass view) Err (keyed (fun _ c => (c_app c, c_ep c)) m)).
+    apply (walk_fine pair_eqb pair_eqb_spec (ints_expand g m excl pass view) Err false (keyed (fun _ c => (c_app c, c_ep c)) m)).
     - intros n o es pre k n' He Hin. unfold ints_expand in He. destruct n as [[a e]|].
       + destruct (find_app m a) as [ta|] eqn:Ea; [|inversion He; subst; destruct Hin].
         destruct (find_ep ta e) as [ep|] eqn:Ee; [|inversion He; subst; destruct Hin].
